@@ -22,6 +22,9 @@ def main():
     patch = os.path.join(d, "patch.diff")
     env = dict(os.environ)
     scratch = None
+    # the evidence file must come from runs against /repo itself: keep it over this run
+    evp = os.path.join(VERIF, "evidence", pid + ".json")
+    saved_ev = open(evp).read() if os.path.exists(evp) else None
     try:
         if in_repo:
             subprocess.check_call(["git", "-C", "/repo", "apply", patch])
@@ -46,6 +49,8 @@ def main():
             subprocess.call(["git", "-C", "/repo", "checkout", "--", "."])
         if scratch:
             shutil.rmtree(scratch, ignore_errors=True)
+        if saved_ev is not None:
+            open(evp, "w").write(saved_ev)
     lines = [l for l in out.splitlines() if l.startswith(("VIOLATION", "KNOWN-FINDING", "INFRA", pid))]
     print("\n".join(lines))
     caught = p.returncode == 1 and any(l.startswith("VIOLATION property=%s " % pid) for l in lines)
